@@ -596,7 +596,7 @@ def run(ctx):
         cases += [gen_case(rng) for _ in range(ctx.scale(130, 2400))]
         cases += [gen_vector_case(rng) for _ in range(ctx.scale(25, 400))]
         cases += [gen_shapes_case(rng) for _ in range(ctx.scale(20, 400))]
-        cases += [gen_cutoff_case(rng, 77 + (k % 8)) for k in range(ctx.scale(8, 64))]
+        cases += [gen_cutoff_case(rng, [80, 81, 79, 82, 80, 81, 78, 83, 80, 81, 77, 84][k % 12]) for k in range(ctx.scale(12, 72))]
     isd_cases, short_terms, short_meta = [], [], []
     process(ctx, rng, cases, 'C12', 'cases', isd_cases, short_terms, short_meta)
     # ---- isdisjoint correspondence (real arguments + random integer lists)
